@@ -337,6 +337,20 @@ example : runM (initM 1) [.createTopic 1 2 1, .updateOffsets 1 0 41, .nextOffset
     [.ok, .ok, .offset 42, .ok, .ok, .ok, .coff 0 0, .offset 0, .ok, .topics [(1, some 3), (2, none)], .ok, .groups [(3, 8)]] := by
   decide
 
+/-- `same_results` carries NO hypothesis on partition indexes: `UpdateOffsets` / commits for a
+partition the topic does not have are covered (neither store validates the index; both deletes
+remove everything recorded under the topic).  The schedule of seeded change C17-1 on the models:
+an offset recorded for partition 3 of a 2-partition topic is gone in BOTH stores after
+delete + re-create with 4 partitions; and a re-commit of the same offset with other metadata
+(seeded C17-2) is stored by both. -/
+example : runM (initM 1) [.createTopic 1 2 1, .updateOffsets 1 3 41, .nextOffset 1 3, .deleteTopic 1, .createTopic 1 4 1, .nextOffset 1 3,
+      .commit 1 1 0 5 1, .commit 1 1 0 5 2, .fetch 1 1 0] =
+      [.ok, .ok, .errUnknown, .ok, .ok, .offset 0, .ok, .ok, .coff 5 2] ∧
+    runE (initE 1) [.createTopic 1 2 1, .updateOffsets 1 3 41, .nextOffset 1 3, .deleteTopic 1, .createTopic 1 4 1, .nextOffset 1 3,
+      .commit 1 1 0 5 1, .commit 1 1 0 5 2, .fetch 1 1 0] =
+      [.ok, .ok, .errUnknown, .ok, .ok, .offset 0, .ok, .ok, .coff 5 2] := by
+  decide
+
 /-- **Mirrored asymmetry outside the statement's operation list.** After `CreateTopic(t, 3, rf 1)`
 `FetchTopicConfig` reports replication factor 1 in memory but 3 (= partition count) from etcd. -/
 theorem _root_.KafVerif.C17.config_default_differs :
